@@ -2682,9 +2682,10 @@ class Engine:
             if isinstance(v, Raised):
                 out.append((st1, v))
                 continue
-            st1.trace.append(('yield', v))
+            sent = V('obj', oid='sent!%d' % next(self.counter))
+            st1.trace.append(('yield', v, sent))          # (what is yielded, what the generator is then handed)
             self.yield_havoc(st1)
-            out.append((st1, V('obj', oid='sent!%d' % next(self.counter))))
+            out.append((st1, sent))
         return out
 
     def ex_YieldFrom(self, e, st):
